@@ -1,1 +1,240 @@
-pub fn run(_a: &vcommon::Args) {}
+//! C08 — A patch is merged only by a threshold of agreeing delegates.
+use std::collections::BTreeSet;
+
+use radicle::cob::patch::Patch;
+use radicle::cob::{ObjectId, TypeName};
+use radicle::git::Oid;
+use vcommon::{json, Args, Reporter, Rng, Value};
+
+use crate::world::{eval, Snap, World};
+
+#[derive(Clone, Debug)]
+struct Op {
+    oid: Oid,
+    actor: usize,
+    parents: Vec<usize>,
+    ts: i64,
+    actions: Vec<Value>,
+}
+
+fn prefix_tips(ops: &[Op], k: usize) -> Vec<Oid> {
+    let mut is_parent = vec![false; k];
+    for o in &ops[..k] {
+        for p in &o.parents {
+            is_parent[*p] = true;
+        }
+    }
+    (0..k).filter(|i| !is_parent[*i]).map(|i| ops[i].oid).collect()
+}
+
+fn case_json(w: &World, ops: &[Op], head_moves: &[Value]) -> Value {
+    json!({"ndelegates": w.ndelegates, "threshold": w.threshold, "code": "0..3 = chain m0<-m1<-m2<-m3, 4 = side commit off m0",
+        "code_oids": w.code.iter().map(|c| c.to_string()).collect::<Vec<_>>(),
+        "delegate_heads_now": w.heads, "head_moves": head_moves,
+        "ops": ops.iter().enumerate().map(|(i, o)| json!({"i": i, "oid": o.oid.to_string(), "actor": o.actor, "parents": o.parents, "ts": o.ts, "actions": o.actions})).collect::<Vec<_>>()})
+}
+
+/// Oracle for one evaluated prefix.
+fn check_merged(rep: &mut Reporter, w: &World, ops: &[Op], snap: &Snap, head_moves: &[Value]) -> bool {
+    let st = &snap.state["state"];
+    if st["status"] != "merged" {
+        return true;
+    }
+    rep.count("merged-states-checked");
+    let r = st["revision"].as_str().unwrap_or("").to_string();
+    let c = st["commit"].as_str().unwrap_or("").to_string();
+    let cidx = w.code.iter().position(|x| x.to_string() == c);
+    // distinct delegates with a merge of exactly (r, c) anywhere in the surviving history, whose
+    // default branch contains c right now
+    let mut supporters = BTreeSet::new();
+    let mut any_recorded = BTreeSet::new();
+    for o in ops.iter().filter(|o| snap.entries.contains(&o.oid)) {
+        if o.actor >= w.ndelegates {
+            continue;
+        }
+        for a in &o.actions {
+            if a["type"] == "merge" && a["revision"] == r.as_str() && a["commit"] == c.as_str() {
+                any_recorded.insert(o.actor);
+                if let Some(ci) = cidx {
+                    if World::code_is_ancestor_or_equal(ci, w.heads[o.actor]) {
+                        supporters.insert(o.actor);
+                    }
+                }
+            }
+        }
+    }
+    if w.threshold >= 2 {
+        rep.count("merged-states-checked.threshold>=2");
+    }
+    if any_recorded.len() < w.threshold {
+        rep.violation("C08/merged-with-fewer-agreeing-delegates-than-threshold", json!({"merged": st, "delegates_with_that_merge": any_recorded, "case": case_json(w, ops, head_moves)}));
+        return false;
+    }
+    if supporters.len() < w.threshold {
+        rep.violation("C08/merged-commit-not-on-enough-delegates-default-branches", json!({"merged": st, "delegates_with_that_merge": any_recorded, "of-which-branch-contains-commit": supporters, "case": case_json(w, ops, head_moves)}));
+        return false;
+    }
+    true
+}
+
+fn one(rep: &mut Reporter, seed: u64, thorough: bool) {
+    let mut rng = Rng::new(seed);
+    let nd = 1 + rng.usize(4);
+    let threshold = 1 + rng.usize(nd);
+    let nactors = nd + 2;
+    let mut w = World::new(nd, nactors, threshold, "c08");
+    let typename: TypeName = radicle::cob::patch::TYPENAME.clone();
+    let author = rng.usize(nactors);
+    let mut ops: Vec<Op> = vec![];
+    let mut head_moves: Vec<Value> = vec![];
+    let root_actions = vec![
+        json!({"type": "revision", "description": "root", "base": w.code[0].to_string(), "oid": w.code[1].to_string()}),
+        json!({"type": "edit", "title": "t", "target": "delegates"}),
+    ];
+    let root = w.change(&typename, Some(w.id_head), vec![], vec![], author, false, &root_actions, 1_700_000_000);
+    ops.push(Op { oid: root, actor: author, parents: vec![], ts: 1_700_000_000, actions: root_actions });
+    let id = ObjectId::from(root);
+    let mut revisions: Vec<(Oid, usize)> = vec![(root, author)];
+    let ns: Vec<usize> = (0..24).collect();
+    w.set_refs(&typename, &id, &prefix_tips(&ops, 1), &ns);
+    let Ok(Some(mut prev)) = eval::<Patch>(&w, &typename, &id) else {
+        rep.inconclusive("root patch does not evaluate", json!({}));
+        return;
+    };
+    let nops = 4 + rng.usize(if thorough { 20 } else { 12 });
+    let ts_mode = rng.below(3);
+    let mut saw_merged = false;
+    let mut saw_conflict = false;
+    // a favourite (revision, commit) pair most delegates agree on
+    let fav_commit = 1 + rng.usize(2);
+    for _ in 1..nops {
+        let i = ops.len();
+        let tips: Vec<usize> = {
+            let mut is_parent = vec![false; i];
+            for o in &ops {
+                for p in &o.parents {
+                    is_parent[*p] = true;
+                }
+            }
+            (0..i).filter(|j| !is_parent[*j]).collect()
+        };
+        let parents = if rng.chance(1, 6) { vec![rng.usize(i)] } else if tips.len() > 1 && rng.chance(1, 3) { vec![*rng.pick(&tips)] } else { tips };
+        let ts = 1_700_000_000 + match ts_mode { 0 => i as i64 * 10, 1 => i as i64 / 3, _ => rng.below(3) as i64 };
+        let (actor, actions): (usize, Vec<Value>) = match rng.below(20) {
+            0..=9 => {
+                // merge by a delegate (sometimes by a non-delegate)
+                let actor = if rng.chance(1, 8) { nd + rng.usize(nactors - nd) } else { rng.usize(nd) };
+                let (rev, commit) = if rng.chance(2, 3) { (revisions[0].0, fav_commit) } else { (rng.pick(&revisions).0, rng.usize(w.code.len())) };
+                (actor, vec![json!({"type": "merge", "revision": rev.to_string(), "commit": w.code[commit].to_string()})])
+            }
+            10 | 11 => {
+                let actor = rng.usize(nactors);
+                let c = rng.usize(w.code.len());
+                (actor, vec![json!({"type": "revision", "description": format!("r{i}"), "base": w.code[0].to_string(), "oid": w.code[c].to_string()})])
+            }
+            12 => {
+                // redact a non-root revision by its author or a delegate
+                if revisions.len() > 1 {
+                    let (r, a) = revisions[1 + rng.usize(revisions.len() - 1)];
+                    let actor = if rng.bool() { a } else { rng.usize(nd) };
+                    (actor, vec![json!({"type": "revision.redact", "revision": r.to_string()})])
+                } else {
+                    (author, vec![json!({"type": "lifecycle", "state": {"status": "draft"}})])
+                }
+            }
+            13 => {
+                // move a delegate's default branch (not a change; environment event)
+                let d = rng.usize(nd);
+                let idx = rng.usize(w.code.len());
+                w.set_head(d, idx);
+                head_moves.push(json!({"before_op": i, "delegate": d, "to_code": idx}));
+                rep.count("fed.default-branch-moved");
+                // re-evaluate the same prefix under the new branches
+                let cur = match eval::<Patch>(&w, &typename, &id) {
+                    Ok(Some(c)) => c,
+                    _ => return,
+                };
+                rep.eval();
+                if !check_merged(rep, &w, &ops, &cur, &head_moves) {
+                    return;
+                }
+                prev = cur;
+                continue;
+            }
+            _ => {
+                // lifecycle by author or delegate (1-2 actions)
+                let actor = if rng.bool() { author } else { rng.usize(nd) };
+                let n = 1 + rng.usize(2);
+                let acts = (0..n).map(|_| json!({"type": "lifecycle", "state": {"status": *rng.pick(&["open", "draft", "archived"])}})).collect();
+                (actor, acts)
+            }
+        };
+        let parent_oids: Vec<Oid> = parents.iter().map(|p| ops[*p].oid).collect();
+        let oid = w.change(&typename, Some(w.id_head), parent_oids, vec![], actor, false, &actions, ts);
+        ops.push(Op { oid, actor, parents, ts, actions: actions.clone() });
+        w.set_refs(&typename, &id, &prefix_tips(&ops, i + 1), &ns);
+        let cur = match eval::<Patch>(&w, &typename, &id) {
+            Ok(Some(c)) => c,
+            other => {
+                rep.inconclusive("patch evaluation failed", json!({"r": format!("{other:?}")}));
+                return;
+            }
+        };
+        rep.eval();
+        let accepted = cur.entries.contains(&oid);
+        for a in &actions {
+            let t = a["type"].as_str().unwrap_or("?");
+            rep.count(&format!("fed.{t}"));
+            if accepted {
+                rep.count(&format!("accepted.{t}"));
+                if t == "revision" {
+                    revisions.push((oid, actor));
+                }
+            }
+        }
+        if !check_merged(rep, &w, &ops, &cur, &head_moves) {
+            return;
+        }
+        if cur.state["state"]["status"] == "merged" {
+            saw_merged = true;
+        }
+        if cur.state["state"]["conflicts"].as_array().map(|a| !a.is_empty()).unwrap_or(false) {
+            saw_conflict = true;
+        }
+        // lifecycle-only change applied last on a merged patch: still merged, same revision/commit
+        let lifecycle_only = actions.iter().all(|a| a["type"] == "lifecycle");
+        let applied_last = accepted && cur.order.last() == Some(&oid) && cur.entries.len() == prev.entries.len() + 1;
+        if lifecycle_only && prev.state["state"]["status"] == "merged" && (applied_last || !accepted) {
+            rep.count("lifecycle-on-merged-patch-checked");
+            if cur.state["state"] != prev.state["state"] {
+                rep.violation("C08/lifecycle-action-moved-merged-patch", json!({"op": i, "before": prev.state["state"], "after": cur.state["state"], "case": case_json(&w, &ops, &head_moves)}));
+                return;
+            }
+        }
+        prev = cur;
+    }
+    if saw_merged {
+        rep.count("histories-that-reached-merged");
+        rep.nontrivial(seed);
+    }
+    if saw_conflict {
+        rep.count("histories-with-conflicting-merges");
+    }
+    if rep.wants_sample() && saw_merged && ops.len() > 6 {
+        rep.sample(json!({"case": case_json(&w, &ops, &head_moves), "final_state": prev.state["state"], "merges": prev.state["merges"]}));
+    }
+}
+
+pub fn run(args: &Args) {
+    let mut rep = Reporter::new("C08");
+    if let Some(path) = &args.replay {
+        let w = vcommon::load_replay(path);
+        one(&mut rep, w["case_seed"].as_u64().unwrap_or(args.seed), args.thorough);
+        rep.finish();
+        return;
+    }
+    for k in 0..args.budget(3_200, 32_000) {
+        one(&mut rep, args.case_seed(k), args.thorough);
+    }
+    rep.finish();
+}
